@@ -89,6 +89,13 @@ Definition dim_of (shapes : shapes_t) (nk : str * nat) : option nat :=
 
 Definition sel_in_range (f : fsel) (size : nat) : bool := is_ok (fsel_indices f size).
 
+(* every fixed index is in range on every array that carries its axis (known shapes).  _validate_fixed_indices checks
+   this only on supplied inputs; on an axis carried only by internal shapes the run itself raises IndexError. *)
+Definition fixed_in_range (p : list mfunc) (shapes : shapes_t) (d : request) : bool :=
+  forallb (fun af => forallb (fun nk => match dim_of shapes nk with
+                                        | Some n => sel_in_range (snd af) n
+                                        | None => true end) (carriers_of p (fst af))) d.
+
 Inductive status := Valid | Rejected | Unspecified.
 
 (* Rejected: an unknown axis, a reduced axis, or an index out of range on an axis of a supplied input.
